@@ -102,7 +102,10 @@ def tier_b(run, thorough):
         def cos(u, v):
             return np.dot(u, v) / (sp.sqrt(np.dot(u, u)) * sp.sqrt(np.dot(v, v)))
         cen = lambda v: v - sum(v[1:], v[0]) / sp.Integer(len(v))
-        specs = {'cosine': np.array([[cos(A[i], B[j]) for j in range(n2)] for i in range(n1)], dtype=object)}
+        specs = {'cosine': np.array([[cos(A[i], B[j]) for j in range(n2)] for i in range(n1)], dtype=object),
+                 # correlation = cosine of the centred vectors (the zero-norm guard of the code is decided at a generic point: the
+                 # identity is proved for all values whose centred vectors do not vanish)
+                 'corr': np.array([[cos(cen(A[i]), cen(B[j])) for j in range(n2)] for i in range(n1)], dtype=object)}
         for method, want in specs.items():
             nm = f'C03/compare_{method}/B/formula[n_cond={n_cond},stacks={n1}x{n2}]'
             try:
@@ -120,7 +123,7 @@ def tier_b(run, thorough):
                 fails.append((nm, method, dict(n_cond=n_cond, index=str(idx), difference=str(diff)[:300])))
     for o in sorted(OVERRIDES_USED):
         run.trust('engine B proxy override: ' + o)
-    run.bounded_check('C03/B/formulas', 'B', 'ALL POSITIVE REAL dissimilarity values (cosine; the centred norm of the correlation cannot be signed symbolically); shapes (n_cond, n1, n2) in %s' % shapes, n_eval, n_eval,
+    run.bounded_check('C03/B/formulas', 'B', 'ALL POSITIVE REAL dissimilarity values (cosine; correlation: all such values whose centred vectors are not zero -- the zero-norm branch is taken at a generic point); shapes (n_cond, n1, n2) in %s' % shapes, n_eval, n_eval,
                       exhaustive=False, failures=len(fails))
     return fails
 
